@@ -25,6 +25,11 @@ type TableDump struct {
 
 type Dump struct {
 	Tables map[string]*TableDump // by lower case name
+	// tables whose definition sqlittle cannot interpret (lower case name -> error text).
+	// The property allows that, provided every select on them fails without rows.
+	Rejected map[string]string
+	// a select on a rejected table that delivered rows or no error
+	RejectedButRead []string
 }
 
 func (d *Dump) Names() []string {
@@ -144,6 +149,7 @@ func littleDump(h *sqlittle.DB, d *sdb.Database, _ bool) (*Dump, error) {
 		s    *sdb.Schema
 	}
 	var schemas []sch
+	var rejected map[string]string
 	if err == nil {
 		for _, n := range names {
 			if strings.HasPrefix(n, "sqlite_") {
@@ -151,8 +157,11 @@ func littleDump(h *sqlittle.DB, d *sdb.Database, _ bool) (*Dump, error) {
 			}
 			s, e := d.Schema(n)
 			if e != nil {
-				err = fmt.Errorf("schema %s: %v", n, e)
-				break
+				if rejected == nil {
+					rejected = map[string]string{}
+				}
+				rejected[strings.ToLower(n)] = e.Error()
+				continue
 			}
 			schemas = append(schemas, sch{n, s})
 		}
@@ -161,7 +170,17 @@ func littleDump(h *sqlittle.DB, d *sdb.Database, _ bool) (*Dump, error) {
 	if err != nil {
 		return nil, err
 	}
-	out := &Dump{Tables: map[string]*TableDump{}}
+	out := &Dump{Tables: map[string]*TableDump{}, Rejected: rejected}
+	for n := range rejected {
+		// "a definition sqlittle cannot interpret produces an error, never rows"
+		calls := 0
+		e1 := h.Select(n, func(sqlittle.Row) { calls++ }, "rowid")
+		e2 := h.Select(n, func(sqlittle.Row) { calls++ })
+		_, e3 := h.Columns(n)
+		if e1 == nil || e2 == nil || e3 == nil || calls > 0 {
+			out.RejectedButRead = append(out.RejectedButRead, fmt.Sprintf("%s: Select err=%v/%v Columns err=%v callbacks=%d", n, e1, e2, e3, calls))
+		}
+	}
 	for _, sc := range schemas {
 		cols, err := h.Columns(sc.name)
 		if err != nil {
@@ -198,6 +217,19 @@ func sortedRows(rows [][]interface{}) []string {
 // sqlittle does not list are not compared (leaving an index out is allowed);
 // an index sqlittle lists must exist in SQLite and agree.
 func DumpDiff(got, want *Dump) string {
+	if len(got.RejectedButRead) > 0 {
+		return fmt.Sprintf("a table whose definition is not understood is read anyway: %v", got.RejectedButRead)
+	}
+	if len(got.Rejected) > 0 {
+		// compare only what sqlittle accepted
+		w2 := &Dump{Tables: map[string]*TableDump{}}
+		for n, t := range want.Tables {
+			if _, rej := got.Rejected[n]; !rej {
+				w2.Tables[n] = t
+			}
+		}
+		want = w2
+	}
 	gn, wn := got.Names(), want.Names()
 	if strings.Join(gn, ",") != strings.Join(wn, ",") {
 		return fmt.Sprintf("tables: got %v want %v", gn, wn)
